@@ -378,6 +378,20 @@ def run(prog, rep):
                 detail = (sorted(o.conds), cand)
                 if contain and shorter:
                     okh = True
+                # a candidate is rejected for missing hops or for not being shorter - for nothing else
+                for n in o.cond_nodes:
+                    t_ = ctext(n)
+                    is_contain = isinstance(n, ast.Call) and isinstance(n.func, ast.Name) and n.func.id == 'all'
+                    alts = n.values if isinstance(n, ast.BoolOp) and isinstance(n.op, ast.Or) else [n]
+                    is_short = {ctext(a_) for a_ in alts} <= {f'not {res}', f'len({cand}) < len({res})', res}
+                    if not is_contain and not is_short:
+                        induced = any(isinstance(x, ast.Call) and call_name(x) in ('cycle_basis', 'find_cycle', 'simple_cycles', 'is_forest', 'is_tree') for x in ast.walk(n)) and \
+                            any(isinstance(x, ast.Call) and call_name(x) == 'subgraph' for x in ast.walk(n))
+                        construct = 'candidate path also rejected by an acyclicity test of the induced subgraph' if induced else f'candidate path also rejected unless `{t_[:80]}`'
+                        rep.violation('R5', loc(nxpg.module, o.stmt), 'NetworkXPropertyGraph.get_nodes_on_path_with_hops', construct,
+                                      f'a simple path (already loop-free) that contains all hops is discarded unless `{t_[:80]}` holds: the query '
+                                      f'returns a longer path or nothing although a qualifying path exists (the persistent backend applies no '
+                                      f'such test)')
     rep.instance('R5', f'get_nodes_on_path_with_hops: result replaced under {detail}; hop containment and shortest selection: {okh}')
     if not okh:
         rep.violation('R5', loc(nxpg.module, wh), 'NetworkXPropertyGraph.get_nodes_on_path_with_hops', 'hop containment / shortest selection',
